@@ -31,8 +31,10 @@ Definition pull_gate (under_min over_max : bool) (size : Z) (bavail : option Z) 
 (* history of one node: dispatches and task ends *)
 Inductive ev :=
 | Dispatch (id : N) (size : Z) (under_min over_max : bool) (bavail : option Z)
-| Finish (id : N).                                  (* the pull task of request id ended, by whatever path: its
+| Finish (id : N)                                   (* the pull task of request id ended, by whatever path: its
                                                        clean-up ran release_bytes(size) exactly once (C10) *)
+| Reinit.                                           (* the node's I/O object is re-created (io_config changed, node came back):
+                                                       DefaultNodeIO.__init__ does _reserved_bytes.setdefault(name, 0) *)
 Record rstate := { reserved : Z; live : list (N * Z); errors : nat }.
 Definition rinit : rstate := {| reserved := 0; live := []; errors := 0 |}.
 Fixpoint take (id : N) (l : list (N * Z)) : option (Z * list (N * Z)) :=
@@ -55,6 +57,7 @@ Definition rstep (st : rstate) (e : ev) : rstate :=
           end
       | None => st                                   (* not a queued-or-running pull: nothing ends *)
       end
+  | Reinit => st                                     (* setdefault: the running total of transfers in flight is kept *)
   end.
 Definition rrun (evs : list ev) : rstate := fold_left rstep evs rinit.
 Fixpoint outstanding (l : list (N * Z)) : Z := match l with [] => 0 | (_, s) :: l' => s * factor + outstanding l' end.
